@@ -8,6 +8,7 @@ V=/verif; SC=${SEEDCHECK:-/root/wt/seedcheck}; WT=/tmp/vs_$NAME
 PY=/venv/bin/python
 SUITE="-m pytest -q -p no:cacheprovider --timeout=900 --continue-on-collection-errors"
 if [ ! -d $SC ]; then git -C $V worktree add -q $SC -b wt-$(basename $SC); fi
+if [ ! -d $SC/lean/.lake ] && [ -d $V/lean/.lake ]; then cp -r $V/lean/.lake $SC/lean/.lake; fi
 git -C $SC merge --abort >/dev/null 2>&1; git -C $SC reset -q --hard main; git -C $SC clean -qfd -e lean/.lake
 (cd $SC && ./setup.sh >/dev/null 2>&1)
 git -C /repo worktree add -q $WT HEAD || exit 2
